@@ -28,12 +28,14 @@ let run_one mode (src : coq_N list) =
   | Panic _ -> "panic"
   | OutOfFuel -> "outoffuel"
 
+let run_blank (src : coq_N list) = "ok " ^ show_scalars (LexSpec.blank_comments src)
+
 let run_line mode line =
   let line = Stdlib.String.trim line in
   let src = if line = "-" then [] else
       Stdlib.List.map (fun t -> n_of_int (int_of_string t))
         (Stdlib.List.filter (fun t -> t <> "") (Stdlib.String.split_on_char ' ' line)) in
-  line ^ " = " ^ run_one mode src
+  line ^ " = " ^ (if mode = 3 then run_blank src else run_one mode src)
 
 let mask = 0x3fff_ffff_ffff_ffff
 let mix h (s : string) =
@@ -77,21 +79,9 @@ let sweep mode len prefix digest =
     done
   done
 
-(* "shape c c c | c c c | c c c": the executable side conditions of the
-   declarative lemmas for a (prefix, comment body, rest) triple *)
-let shape_line line =
-  let parts = Stdlib.String.split_on_char '|' line in
-  let parse p = let p = Stdlib.String.trim p in if p = "-" || p = "" then [] else
-      Stdlib.List.map (fun t -> n_of_int (int_of_string t)) (Stdlib.List.filter (fun t -> t <> "") (Stdlib.String.split_on_char ' ' p)) in
-  match Stdlib.List.map parse parts with
-  | [a; c; _] ->
-    Printf.sprintf "%s = plain %b noclose %b nonl %b" line (LexSpec.plain_code_b a) (LexSpec.no_close_b c) (LexSpec.no_newline_b c)
-  | _ -> line ^ " = bad-line"
-
 let () =
-  let mode_of = function "mirror" -> 0 | "mirror-old" -> 1 | "spec" -> 2 | _ -> (prerr_endline "bad mode"; exit 2) in
+  let mode_of = function "mirror" -> 0 | "mirror-old" -> 1 | "spec" -> 2 | "blank" -> 3 | _ -> (prerr_endline "bad mode"; exit 2) in
   match Array.to_list Sys.argv with
   | _ :: "sweep" :: m :: len :: prefix :: d :: _ -> sweep (mode_of m) (int_of_string len) (int_of_string prefix) (d = "digest")
-  | _ :: "shape" :: _ -> each_line shape_line
   | _ :: m :: _ -> each_line (run_line (mode_of m))
-  | _ -> prerr_endline "usage: model_preprocess mirror|mirror-old|spec | sweep <mode> <len> <prefix> full|digest | shape"; exit 2
+  | _ -> prerr_endline "usage: model_preprocess mirror|mirror-old|spec | sweep <mode> <len> <prefix> full|digest"; exit 2
